@@ -5,62 +5,8 @@ Import ListNotations.
 Local Open Scope N_scope.
 Ltac Zify.zify_post_hook ::= Z.div_mod_to_equations.
 
-(* ------------------------------------------------------------------ *)
-(* 1. SQLite4 varint                                                   *)
-Lemma be_dec_firstn k x rest :
-  x < 2 ^ (8 * N.of_nat k) -> be_dec (firstn k (be_enc k x ++ rest)) = x.
-Proof.
-  intros H. rewrite <- (be_enc_length k x) at 1.
-  rewrite firstn_app, firstn_all, Nat.sub_diag, firstn_O, app_nil_r.
-  apply be_dec_enc. exact H.
-Qed.
-
-Theorem vi_roundtrip (n : N) (rest : bytes) :
-  n < 2 ^ 64 -> vi_dec (vi_enc n ++ rest) = (n, len (vi_enc n)).
-Proof.
-  intros H. unfold vi_enc.
-  destruct (N.ltb_spec n 241) as [H1 | H1].
-  { cbn [app vi_dec]. destruct (N.leb_spec n 240); [reflexivity | lia]. }
-  destruct (N.ltb_spec n 2288) as [H2 | H2].
-  { cbn [app vi_dec nth].
-    pose proof (N.div_mod (n - 240) 256 ltac:(lia)) as E.
-    pose proof (N.mod_lt (n - 240) 256 ltac:(lia)) as Er.
-    set (q := (n - 240) / 256) in *. set (r := (n - 240) mod 256) in *.
-    destruct (N.leb_spec (q + 241) 240); [lia|].
-    destruct (N.leb_spec (q + 241) 248); [|lia].
-    unfold len. cbn [length]. f_equal. lia. }
-  destruct (N.ltb_spec n 67824) as [H3 | H3].
-  { cbn [app vi_dec nth].
-    change (249 <=? 240) with false. change (249 <=? 248) with false. change (249 =? 249) with true. cbv iota.
-    pose proof (N.div_mod (n - 2288) 256 ltac:(lia)) as E.
-    pose proof (N.mod_lt (n - 2288) 256 ltac:(lia)) as Er.
-    set (q := (n - 2288) / 256) in *. set (r := (n - 2288) mod 256) in *.
-    unfold len. cbn [length]. f_equal. lia. }
-  assert (Hbe : forall k tag, (tag = 247 + N.of_nat k) -> (3 <= k <= 8)%nat -> n < 2 ^ (8 * N.of_nat k) ->
-            vi_dec ((tag :: be_enc k n) ++ rest) = (n, len (tag :: be_enc k n))).
-  { intros k tag Ht Hk Hn. cbn [app vi_dec].
-    destruct (N.leb_spec tag 240); [lia|]. destruct (N.leb_spec tag 248); [lia|].
-    destruct (N.eqb_spec tag 249); [lia|].
-    replace (N.to_nat (tag - 247)) with k by lia.
-    rewrite be_dec_firstn by exact Hn. unfold len. cbn [length]. rewrite be_enc_length. f_equal. lia. }
-  destruct (N.ltb_spec n (2 ^ 24)) as [H4 | H4]; [apply (Hbe 3%nat); [reflexivity | lia | exact H4]|].
-  destruct (N.ltb_spec n (2 ^ 32)) as [H5 | H5]; [apply (Hbe 4%nat); [reflexivity | lia | exact H5]|].
-  destruct (N.ltb_spec n (2 ^ 40)) as [H6 | H6]; [apply (Hbe 5%nat); [reflexivity | lia | exact H6]|].
-  destruct (N.ltb_spec n (2 ^ 48)) as [H7 | H7]; [apply (Hbe 6%nat); [reflexivity | lia | exact H7]|].
-  destruct (N.ltb_spec n (2 ^ 56)) as [H8 | H8]; [apply (Hbe 7%nat); [reflexivity | lia | exact H8]|].
-  apply (Hbe 8%nat); [reflexivity | lia | exact H].
-Qed.
-
-(* the first byte of the length header is non-zero for every positive length:
-   it distinguishes the out-of-band form from the inline marker 0 *)
-Theorem vi_first_byte_nonzero (n : N) : 0 < n -> hd 0 (vi_enc n) <> 0.
-Proof.
-  intros H. unfold vi_enc.
-  repeat match goal with |- context [if ?c then _ else _] => destruct c end; cbn [hd]; lia.
-Qed.
-
-Lemma vi_enc_nonempty n : vi_enc n <> [].
-Proof. unfold vi_enc. repeat match goal with |- context [if ?c then _ else _] => destruct c end; discriminate. Qed.
+(* 1. SQLite4 varint: vi_roundtrip, vi_first_byte_nonzero, vi_enc_nonempty are proved in C15.Proofs
+   (the tuple builder's oracle theorem needs them). *)
 
 (* ------------------------------------------------------------------ *)
 (* 2. adaptive representations round-trip                              *)
